@@ -472,6 +472,30 @@ func exhaustiveC06(thorough bool, emit func(C06Case) bool) {
 			return
 		}
 	}
+	// three records of one layout with one byte replaced by a line feed, or dropped (a line broken
+	// in two, a line one short: malformed for most formats), delivered whole and byte by byte
+	for _, f := range codecNames {
+		var base bytes.Buffer
+		for rep := 0; rep < 3; rep++ {
+			for _, l := range many[f] {
+				base.WriteString(l + "\n")
+			}
+		}
+		text := base.Bytes()
+		for p := 0; p < len(text); p++ {
+			if text[p] == '\n' {
+				continue
+			}
+			broken := bytes.Clone(text)
+			broken[p] = '\n'
+			short := append(bytes.Clone(text[:p]), text[p+1:]...)
+			for i, raw := range [][]byte{broken, short} {
+				if !emit(C06Case{Format: f, Text: StreamText{Raw: raw}, Chunks: [][]int{{100000}, {1}, {3, 64}}[(p+i)%3], EOFWithData: p%2 == 0}) {
+					return
+				}
+			}
+		}
+	}
 	// every partition of tiny inputs into chunks
 	maxN := 12
 	if thorough {
